@@ -302,3 +302,91 @@ def sync(k: int, has_id: bool, rid: int, known_file: bool, u: int, c: int, a: in
     ok = ok and jsonable(srv.conn.out)
     tock("sync")
     return ok
+
+
+# ------------------------------------------------------------------ (B) a real session at the byte level
+def _frames(raw: bytes):
+    """independent frame reader: Content-Length counts BYTES -> list of decoded JSON messages; raises on garbage"""
+    out, pos = [], 0
+    while pos < len(raw):
+        end = raw.index(b"\r\n\r\n", pos)
+        n = None
+        for h in raw[pos:end].split(b"\r\n"):
+            k, _, v = h.partition(b":")
+            if k.strip().lower() == b"content-length":
+                n = int(v.strip())
+        body = raw[end + 4:end + 4 + n]
+        if len(body) != n:
+            raise ValueError("truncated frame")
+        out.append(json.loads(body.decode("utf-8")))
+        pos = end + 4 + n
+    return out
+
+
+SESSION_NAMES = ["x", "déjà", "日本", "\U0001f600", "a\"b\\c"]
+
+
+def session(pos: int, name: int, extra: int) -> bool:
+    """a real server behind the real JSONRPC2Connection / ReadWriter over byte buffers, real handlers (initialize
+    included, with the process pool replaced by an in-process stand-in): requests initialize, an unknown method whose
+    name holds non-ASCII text (echoed in the error), hover on an unknown document, documentSymbol, shutdown - with a
+    SECOND initialize request inserted at position `pos` and `extra` repeated requests - then exit.  Read back with
+    an independent byte-level frame reader: every frame decodes, every request id has exactly one response, in order
+    pre: 0 <= pos <= 4 and 0 <= name < len(SESSION_NAMES) and 0 <= extra <= 2
+    post: _
+    """
+    import io
+
+    from crosshair.tracers import NoTracing
+
+    from lib.hx import conc
+
+    tick("session")
+    pos, name, extra = conc(pos, 0, 4), conc(name, 0, len(SESSION_NAMES) - 1), conc(extra, 0, 2)
+    ok = True
+    with NoTracing():
+        import fortls.langserver as L
+        from fortls.jsonrpc import JSONRPC2Connection, ReadWriter
+        from lib import ws
+
+        root = {"rootPath": "/nonexistent_verif_root"}
+        doc = {"textDocument": {"uri": "file:///nonexistent_verif_root/a.f90"}, "position": {"line": 0, "character": 0}}
+        msgs = [("initialize", root), ("unknown/" + SESSION_NAMES[name], {}), ("textDocument/hover", doc),
+                ("textDocument/documentSymbol", doc), ("shutdown", {})]
+        msgs.insert(pos + 1, ("initialize", root))
+        for e in range(extra):
+            msgs.insert(2 + e, msgs[1 + e])
+        reqs = [{"jsonrpc": "2.0", "id": i + 1 if i % 2 == 0 else f"s{i}", "method": m, "params": p} for i, (m, p) in enumerate(msgs)]
+        reqs.insert(3, {"jsonrpc": "2.0", "method": "initialized", "params": {}})  # a notification: no response
+        reqs.append({"jsonrpc": "2.0", "method": "exit", "params": {}})
+        raw_in = b""
+        for r in reqs:
+            b = json.dumps(r, ensure_ascii=False).encode("utf-8")
+            raw_in += b"Content-Length: %d\r\n\r\n" % len(b) + b
+        out = io.BytesIO()
+        srv = LangServer(JSONRPC2Connection(ReadWriter(io.BytesIO(raw_in), out)),
+                         vars(cli("fortls").parse_args(["--disable_autoupdate", "--nthreads", "1"])))
+        old = L.Pool
+        L.Pool = ws._InProcessPool
+        try:
+            srv.run()
+        finally:
+            L.Pool = old
+        try:
+            got = _frames(out.getvalue())
+        except Exception as e:  # noqa: BLE001
+            FAILS.append(f"output stream not decodable frame by frame: {type(e).__name__} {e}")
+            got = None
+        if got is None:
+            ok = False
+        else:
+            ids = [m["id"] for m in got if "id" in m and ("result" in m or "error" in m)]
+            want = [r["id"] for r in reqs if "id" in r]
+            if ids != want:
+                FAILS.append(f"response ids {ids}, request ids {want}")
+                ok = False
+    tock("session")
+    return ok
+
+
+FAILS = []
